@@ -21,3 +21,8 @@ pub struct Plain(pub u8);
 pub fn fmt_only(x: &Plain) -> String {
     format!("{:?} {}", x, x.0)
 }
+
+// Positive control for C08/R8.7 (no pointer identity in comparisons): exactly one Rc::ptr_eq.
+pub fn same_storage(a: &std::rc::Rc<Vec<u8>>, b: &std::rc::Rc<Vec<u8>>) -> bool {
+    std::rc::Rc::ptr_eq(a, b)
+}
